@@ -586,7 +586,11 @@ impl PtraceDumper {
         // on the platforms we care about so the stack should appear after the
         // guard page.
         while !Self::may_be_stack(mapping) && (stack_pointer <= guard_page_max_addr) {
-            stack_pointer += self.page_size;
+            // A stack pointer in the last pages of the address space has nothing above it
+            let Some(next_page) = stack_pointer.checked_add(self.page_size) else {
+                break;
+            };
+            stack_pointer = next_page;
             mapping = self.find_mapping(stack_pointer);
         }
 
